@@ -12,7 +12,9 @@ var (
 
 // the fine-grained scenario menu shared by C05, C06, C07, C12 and C15
 func txnScenarios() []txnScen {
-	init := []txProg{rw("C", "wx", "wy")}
+	// two initial commits: the second one begins with the first one's timestamp and finishes, which lifts the read
+	// watermark above zero - version discard in compactions is active while the scenario's readers are open
+	init := []txProg{rw("C", "wx", "wy"), rw("C", "wy")}
 	return []txnScen{
 		{Name: "S1-lost-update", Init: init, Threads: [][]txProg{{rw("C", "rx", "wx")}, {rw("C", "rx", "wx")}}},
 		{Name: "S2-write-skew", Init: init, Threads: [][]txProg{{rw("C", "rx", "ry", "wx")}, {rw("C", "rx", "ry", "wy")}}},
@@ -36,7 +38,7 @@ func txnScenarios() []txnScen {
 // programs: (A deferred, B committed in the prefix, C deferred) with a concurrent reader, (A, B deferred) with a
 // concurrent reader, and (A, B, C deferred).
 func hybridScenarios(tier string) []txnScen {
-	init := []txProg{rw("C", "wx", "wy")}
+	init := []txProg{rw("C", "wx", "wy"), rw("C", "wy")}
 	menu := []txProg{rw("C", "rx", "wx"), rw("C", "rx", "wy"), rw("C", "wx"), rw("C", "wy")}
 	if tier == "thorough" {
 		menu = append(menu, rw("C", "ry", "wx"), rw("C", "rx", "ry", "wx"), rw("C", "dx"), rw("X", "rx", "wx"))
